@@ -103,6 +103,34 @@ def malformed_case(delay, badact, at, with_cash=False, array_bounds=False):
     return None
 
 
+def malformed_discrete_case(delay, bad, at):
+    """an invalid index for a discrete space (non-integer, negative, too large, NaN) is never executed"""
+    env = TradingEnv(action_space=DiscretePortfolio([SPY, IEF], [[0, 0], [0.5, 0.2], [0.2, 0.5], [-0.3, 0.3]]), prices=prices(), steps_delay=delay)
+    env.reset()
+    raised_at = None
+    for k in range(7):
+        a = bad if k == at else (k % 4)
+        before = (len(env.broker.track_record), dict(env.broker.holdings_quantity))
+        try:
+            env.step(a)
+        except EndOfEpisodeError:
+            break
+        except Exception:
+            raised_at = k
+            if (len(env.broker.track_record), dict(env.broker.holdings_quantity)) != before:
+                return {"problem": "state changed on rejection", "step": k}
+            break
+    if raised_at is None:
+        return {"problem": "never rejected", "holdings": {str(c): q for c, q in env.broker.holdings_quantity.items()}}
+    if raised_at > at + delay:
+        return {"problem": "rejected late", "raised_at": raised_at, "due": at + delay}
+    return None
+
+
+BAD_INDICES = {"fractional_1.7": 1.7, "fractional_2.5": 2.5, "negative_half": -0.5, "np_float_1.2": np.float64(1.2), "too_large": 4, "negative": -1,
+               "nan": float("nan")}
+
+
 def denotes_case(kind, as_weights, fractional):
     """C17: an in-space action is executed as the allocation it denotes, in the declared unit, cash entry ignored"""
     from tradingenv.contracts import Cash
@@ -186,6 +214,17 @@ def timing(tier, seed):
                 acc.validated += 1
                 if p:
                     acc.fail("C17::shell::malformed_action_rejected_when_due", "c08_timing", {"case": "malformed", "delay": delay, "action": nm, "at": at}, p)
+    for delay in (0, 1, 2):
+        for nm, bad in BAD_INDICES.items():
+            for at in (0, 2):
+                try:
+                    p = malformed_discrete_case(delay, bad, at)
+                except Exception as ex:
+                    p = {"problem": "scenario crashed", "error": "%s: %s" % (type(ex).__name__, str(ex)[:160])}
+                acc.case(("malformed_index", delay, nm, at))
+                acc.validated += 1
+                if p:
+                    acc.fail("C17::shell::malformed_action_rejected_when_due", "c08_timing", {"case": "malformed_index", "delay": delay, "action": nm, "at": at}, p)
     return acc.out()
 
 
@@ -255,6 +294,8 @@ def rerun(inp):
     elif c == "malformed":
         bad = malformed_case(inp["delay"], BAD_ACTIONS[inp["action"]], inp["at"], with_cash=(inp["action"] == "nan_in_cash_slot"),
                              array_bounds=inp["action"] in ARRAY_BOUNDS)
+    elif c == "malformed_index":
+        bad = malformed_discrete_case(inp["delay"], BAD_INDICES[inp["action"]], inp["at"])
     elif c == "denotes":
         bad = denotes_case(inp["space"], inp["as_weights"], inp["fractional"])
     else:
